@@ -42,6 +42,8 @@ def run_case(args):
     elif x < 0.4:
         td = R.choice([-2, -1, 2])
         pre = ':se td=%d\n' % td
+    # a prompt that is opened and given up changes nothing (the prompt line itself is edited left-to-right, whatever td is)
+    pre += R.choice(['', '', '', ':\x1b', '/\x1b', '?ab\x1b', ':se td\x1b'])
     import c18
     ctx = c18.model_ctx(line, td, R2L)
     lay = layout(line, W, R2L, NEUT, ctx)
